@@ -33,8 +33,8 @@ func init() {
 			}
 			return 5000, 40 * time.Second
 		},
-		Real:  []string{"gtfs.ParseRealtime", "gtfs.ParseStatic", "nycttrips / nyctalerts extension objects reused across calls", "fresh child processes of the same harness binary (digest comparison)"},
-		Stubs: []string{"history generator (which object, which input, in which order)", "input pool (rich realtime messages, static table model, corrupt and truncated variants)"},
+		Real:  []string{"gtfs.ParseRealtime", "gtfs.ParseStatic", "nycttrips / nyctalerts extension objects reused across calls", "fresh child processes of the same harness binary (digest comparison, also in the opposite call order)", "the same parsers inside testing/synctest bubbles (sub-check binary built with go1.26.8)"},
+		Stubs: []string{"history generator (which object, which input, in which order)", "input pool (rich realtime messages, static table model, corrupt and truncated variants, siblings: padded cells, merged header cells, forged same-CRC-32 members)", "the clock (simulated: the bubble's fake time.Now at four instants per input)"},
 		Assume: []string{
 			"Go map iteration order cannot be seeded: an order defect is detected with probability >= 1-(1/6)^(R-1) per affected collection with >= 3 members (R repetitions); such failures replay with overwhelming probability, not exactly",
 			"the process environment (TZ) is held fixed",
